@@ -265,6 +265,29 @@ Proof.
     exact (G3 _ _ Hm).
 Qed.
 
+Lemma trim_start_ws pre x : Forall ws pre -> trim_start (pre ++ x) = trim_start x.
+Proof.
+  induction 1 as [|c pre Hc Hpre IH]; [reflexivity|]. cbn [app trim_start]. unfold ws in Hc. rewrite Hc. exact IH.
+Qed.
+Lemma trim_start_all_ws pre : Forall ws pre -> trim_start pre = [].
+Proof. intros H. rewrite <- (app_nil_r pre). rewrite trim_start_ws by exact H. reflexivity. Qed.
+Lemma trim_start_stop c x : ~ ws c -> trim_start (c :: x) = c :: x.
+Proof. intros H. cbn [trim_start]. unfold ws in H. destruct (is_ws c); [exfalso; apply H; reflexivity|reflexivity]. Qed.
+
+Lemma trimmed_unique s r : trimmed s r -> r = trim s.
+Proof.
+  intros [pre [post [Hs [Hpre [Hpost [Hhd Hlast]]]]]]. subst s. unfold trim.
+  rewrite trim_start_ws by exact Hpre.
+  destruct r as [|c r'].
+  - cbn [app]. rewrite (trim_start_all_ws post) by exact Hpost. reflexivity.
+  - cbn [app]. rewrite trim_start_stop by (apply (Hhd c r'); reflexivity).
+    change (c :: r' ++ post) with ((c :: r') ++ post). rewrite rev_app_distr.
+    rewrite trim_start_ws by (apply Forall_rev; exact Hpost).
+    destruct (exists_last (l := c :: r') ltac:(discriminate)) as [r'' [d Hd]]. rewrite Hd.
+    rewrite rev_app_distr. cbn [rev app]. rewrite trim_start_stop by (apply (Hlast d r''); exact Hd).
+    change (d :: rev r'') with (rev [d] ++ rev r''). rewrite <- rev_app_distr, rev_involutive. reflexivity.
+Qed.
+
 Lemma trim_class v : spec_trim v (bclass (b_trim v)).
 Proof.
   destruct v; try reflexivity. cbn. eexists. split; [reflexivity|]. apply trimmed_trim.
@@ -702,7 +725,7 @@ Proof.
   - assert (E53 : d = 53) by lia. rewrite binary_round_aux_exact by lia.
     exists p. rewrite E53. split; [reflexivity|]. change (2 ^ (53 - 53)) with 1. lia.
   - assert (Hm : Z.pos (shift_pos k p) = Z.pos p * 2 ^ (53 - d)).
-    { rewrite shift_pos_correct, Zpower_pos_powerRZ || rewrite shift_pos_correct.
+    { rewrite shift_pos_correct.
       rewrite Z.pow_pos_fold. replace (53 - d) with (Z.pos k) by lia. lia. }
     assert (Hpow : 2 ^ (53 - d) * 2 ^ (d - 1) = 2 ^ 52 /\ 2 ^ (53 - d) * 2 ^ d = 2 ^ 53).
     { rewrite <- !Z.pow_add_r by lia. split; f_equal; lia. }
@@ -772,8 +795,7 @@ Proof.
     set (qx := Z.pos x / 2 ^ nx). set (rx := Z.pos x mod 2 ^ nx).
     set (qy := Z.pos y / 2 ^ ny). set (ry := Z.pos y mod 2 ^ ny).
     assert (Hqx : 2 ^ 52 <= qx < 2 ^ 53).
-    { destruct (binary_round_big false x dx nx _ eq_refl ltac:(lia) eq_refl eq_refl) as [_ [_ [_ H]]] || idtac. 
-      replace dx with (nx + 53) in Bx by lia. replace (nx + 53 - 1) with (nx + 52) in Bx by lia.
+    { replace dx with (nx + 53) in Bx by lia. replace (nx + 53 - 1) with (nx + 52) in Bx by lia.
       rewrite !Z.pow_add_r in Bx by lia. split.
       - apply Z.div_le_lower_bound; [exact HPx|]. lia.
       - apply Z.div_lt_upper_bound; [exact HPx|]. lia. }
@@ -1003,11 +1025,6 @@ Proof.
       rewrite Ex. cbn [bind]. destruct (loop_type_error sm l x E Hx) as [w Hw]. rewrite Hw. reflexivity.
     + destruct x; try discriminate; reflexivity.
 Qed.
-
-Lemma ext_of_better_min l r : (In r l /\ forall y, In y l -> ~ better true y r) -> is_min l r.
-Proof. intros H. exact H. Qed.
-Lemma ext_of_better_max l r : (In r l /\ forall y, In y l -> ~ better false y r) -> is_max l r.
-Proof. intros H. exact H. Qed.
 
 Definition ext_of (sm : bool) := if sm then is_min else is_max.
 
@@ -1419,19 +1436,30 @@ Qed.
 Lemma p_wrap64 (z : Z) : wraps_to z (wrap64 z) /\ forall r, wraps_to z r -> r = wrap64 z.
 Proof. split; [apply wrap64_wraps|]. intros r H. exact (wraps_unique z r _ H (wrap64_wraps z)). Qed.
 
-Lemma p_simple (v : value) :
+Lemma p_typeof (v : value) :
+  option_map (fun f => bclass (f v)) (builtin_function O (s2l "typeof")) = Some (spec_typeof v).
+Proof. by_call typeof_class. Qed.
+
+Lemma p_if (v : value) :
+  option_map (fun f => bclass (f v)) (builtin_function O (s2l "if")) = Some (spec_if v).
+Proof. by_call if_class. Qed.
+
+Lemma p_len (v : value) :
+  option_map (fun f => bclass (f v)) (builtin_function O (s2l "len")) = Some (spec_len v).
+Proof. by_call len_class. Qed.
+
+Lemma p_str_from (v : value) :
+  option_map (fun f => bclass (f v)) (builtin_function O (s2l "str::from")) = Some (spec_str_from O v).
+Proof. by_call str_from_class. Qed.
+
+Lemma p_str_case (v : value) :
   let call (name : string) := option_map (fun f => bclass (f v)) (builtin_function O (s2l name)) in
-  call "typeof" = Some (spec_typeof v) /\
-  call "if" = Some (spec_if v) /\
-  call "len" = Some (spec_len v) /\
-  call "str::from" = Some (spec_str_from O v) /\
   call "str::to_lowercase" = Some (on_str (o_to_lowercase O) v) /\
   call "str::to_uppercase" = Some (on_str (o_to_uppercase O) v).
-Proof.
-  intros call. subst call.
-  repeat split; first [by_call typeof_class | by_call if_class | by_call len_class | by_call str_from_class
-                      | by_call lower_class | by_call upper_class].
-Qed.
+Proof. intros call. subst call. split; [by_call lower_class|by_call upper_class]. Qed.
+
+Lemma p_trim_unique (s r : str) : trimmed s r <-> r = trim s.
+Proof. split; [apply trimmed_unique|intros ->; apply trimmed_trim]. Qed.
 
 Lemma p_contains (v : value) f :
   builtin_function O (s2l "contains") = Some f -> spec_contains v (bclass (f v)).
